@@ -38,7 +38,7 @@ PROP = dict(
           'DICT that is the request, for automatic selection it is read '
           'from the header byte the encoder produced'),
     quick=dict(configs=['asan', 'rel'], cases=1000000, maxlen=160),
-    thorough=dict(configs=['asan', 'rel'], cases=10000000, maxlen=200,
+    thorough=dict(configs=['asan', 'rel'], cases=8000000, maxlen=200,
                   fuzz_s=120, setmax=1 << 23),
     case_timeout=300,
     required_classes=[
